@@ -750,7 +750,7 @@ pub fn run(args: &Args) -> i32 {
         sweep::<ECfg>(args, &rep, e_hist.min(64), e_lookup.min(512), conf_e);
     }
     rep.finish(
-        "abstract model: constraint sets over atoms F(v)/S(v) (fresh/stale leaf of version v required present or absent), marker lists from the real get_marker_versions. states = (epoch, range) configurations examined, transitions = pairs examined. Sweep: every pair of history ranges with different latest versions for every epoch up to the bound, and every (complete history latest n, lookup version m != n) pair (dense up to the bound, sparse around 2^16 and 2^32): a pair with no atom required present by one and absent by the other is compatible. Conformance (traces_validated = real-tree experiments): for every history range and lookup version at every epoch up to the conformance bound a real tree holding exactly the required leaves is built by a dishonest publisher; the real verifier must accept it, reject it when any one required leaf is removed, and reject it when any one forbidden leaf is added; compatible pairs are replayed on the union tree and count only if both real verifiers accept",
-        &["dishonest server may place any fresh/stale leaves with any epochs (all leaves stamped with one epoch in the experiments)", "blake3 collision resistance, VRF uniqueness", "sound non-membership verification (C05)"],
+        "abstract model: constraint sets over atoms F(v)/S(v) (fresh/stale leaf of version v required present or absent), marker lists from the real get_marker_versions. states = (epoch, range) configurations examined, transitions = pairs examined. Sweep: every pair of history ranges with different latest versions for every epoch up to the bound, and every (complete history latest n, lookup version m != n) pair (dense up to the bound, sparse around 2^16 and 2^32): a pair with no atom required present by one and absent by the other is compatible. Conformance (traces_validated = real-tree experiments): for every history range and lookup version at every epoch up to the conformance bound a real tree holding exactly the required leaves is built by a dishonest publisher; the real verifier must accept it, reject it when any one required leaf is removed, and reject it when any one forbidden leaf is added; compatible pairs are replayed on the union tree and count only if both real verifiers accept. Arbitrary trees: every binary tree with <= 3 arbitrarily placed leaves and arbitrary interior labels, hashed like a server would; every membership proof (actual path) and non-membership proof (every interior anchor) through the real verifiers: never both for one label",
+        &["dishonest server may place any fresh/stale leaves with any epochs (all leaves stamped with one epoch in the experiments)", "blake3 collision resistance, VRF uniqueness", "presence/absence exclusivity: C05 for canonical tries, the arbitrary-tree enumeration (<= 3 leaves) for non-canonical ones"],
     )
 }
